@@ -10,6 +10,15 @@ type CheckWhen struct {
 }
 
 func (y CheckWhen) CheckContainerPostConstraints(r ChildRequest, s *Selection) (bool, error) {
+	if s != nil && s.Parent() != nil {
+		if hw, ok := r.Meta.(meta.HasWhen); ok && hw.When() != nil {
+			// RFC7950 Sec 7.21.5 a when that comes from a uses or an augment is
+			// evaluated on the node that holds the uses or that is augmented
+			if hw.When().OnParent() {
+				return y.check(s.Parent(), r.Meta)
+			}
+		}
+	}
 	return y.check(s, r.Meta)
 }
 
